@@ -201,8 +201,9 @@ def coq_make(targets, timeout=3000):
     """make -k the given .vo targets (paths relative to coq/).  Returns (ok, output)."""
     with Lock(COQ / ".lock"):
         coq_project()
-        p = sh(["timeout", str(timeout), "make", "-k", "-j", str(NCPU)] + list(targets), cwd=COQ)
-        return p.returncode == 0, p.stdout + p.stderr
+    # make itself runs unlocked so that a long proof build of one property does not block the others
+    p = sh(["timeout", str(timeout), "make", "-k", "-j", str(NCPU)] + list(targets), cwd=COQ)
+    return p.returncode == 0, p.stdout + p.stderr
 
 
 ALLOWED_AXIOM_PREFIXES = (
@@ -313,9 +314,13 @@ def coq_props(pid, timeout=3000):
             "; ".join(f"{f}:{l}: {' '.join(t.split())[:300]}" for f, l, t in m[:3]) if m else err)
         res["theorems"] = [{"name": n, "status": "unchecked", "axioms": []} for n in names]
         return res
-    with Lock(COQ / ".lock"):
-        p = sh(["timeout", "600", "coqc", "-Q", "theories", "Carquet", "-w",
-                "-notation-overridden,-deprecated-hint-without-locality,-deprecated-instance-without-locality", rel], cwd=COQ)
+    # compile the (tiny) Props file once more into a scratch directory to capture Print Assumptions
+    scratch = VERIF / "build" / "props" / pid
+    scratch.mkdir(parents=True, exist_ok=True)
+    shutil.copy(src, scratch / src.name)
+    p = sh(["timeout", "600", "coqc", "-Q", "theories", "Carquet", "-w",
+            "-notation-overridden,-deprecated-hint-without-locality,-deprecated-instance-without-locality",
+            str(scratch / src.name)], cwd=COQ)
     if p.returncode != 0:
         res["error"] = "coqc failed on %s: %s" % (rel, (p.stderr or p.stdout)[-1500:])
         res["theorems"] = [{"name": n, "status": "unchecked", "axioms": []} for n in names]
